@@ -77,7 +77,7 @@ def main():
             "name": "cucumber-sim",
             "path": "/verif/sim",
             "serves_properties": claimed,
-            "kind_free_text": "hand-written single-threaded discrete-event simulator (virtual clock, timer heap, seeded scheduler, fault plans) driving the real crate through its Parser / Runner / Writer / World seams plus five cfg-guarded hooks; python3 driver ./check fans out 16 worker processes, shrinks and replays",
+            "kind_free_text": "hand-written single-threaded discrete-event simulator (a quarter of the runner-world plans run through the Cucumber builder and filter_run instead of polling runner::Basic directly) (virtual clock, timer heap, seeded scheduler, fault plans) driving the real crate through its Parser / Runner / Writer / World seams plus five cfg-guarded hooks; python3 driver ./check fans out 16 worker processes, shrinks and replays",
         }],
         "checks": checks,
         "not_applicable": [{"property_id": k, "reason": v} for k, v in sorted(na.items())],
